@@ -319,6 +319,14 @@ func (v *env) runBlock(o *hx.Out, k int, plans []txPlan) {
 		}
 		cov = saved
 	}
+	// the transactions as stored in the block are the ones that were submitted (their script is handed to the VM by
+	// System.Runtime.GetScriptContainer)
+	for i, tx := range txs {
+		stored, _, err := v.bc.GetTransaction(tx.Hash())
+		if err != nil || !bytes.Equal(stored.Script, v.w.compileEntry(plans[i].tree)) || stored.Hash() != tx.Hash() {
+			o.Fail("stored-transaction-changed", k, "tx %d: %s", i, planText(plans[i]))
+		}
+	}
 	after := v.snap(true)
 	post := after.tr
 	for _, t := range pre { // the rewards and the block index are inputs of the block: the model keeps them in its store
@@ -552,6 +560,11 @@ func main() {
 			if c == nil && k%8 == 7 {
 				o.Count("case:native-cache-layering")
 				runCacheCase(o, k, r)
+				return
+			}
+			if c == nil && k == len(corp) {
+				o.Count("case:notification-immutability-probe")
+				runNotificationProbe(o, k)
 				return
 			}
 			if c == nil && k%16 == 3 {
